@@ -361,6 +361,16 @@ pub mod sched {
         YIELD_MASK.store(mask, Ordering::SeqCst);
     }
 
+    static STALL_MASK: AtomicU64 = AtomicU64::new(0);
+    static STALL_MICROS: AtomicU64 = AtomicU64::new(0);
+
+    /// Free-running mode: with probability `1 / (mask + 1)` a scheduling point holds its thread for
+    /// `micros` (an involuntary preemption in the middle of an operation); mask 0 turns it off.
+    pub fn set_random_stall(mask: u64, micros: u64) {
+        STALL_MICROS.store(micros, Ordering::SeqCst);
+        STALL_MASK.store(mask, Ordering::SeqCst);
+    }
+
     static AUTO: AtomicBool = AtomicBool::new(false);
     static BACKGROUND: Mutex<Vec<(&'static str, usize, ThreadId)>> = Mutex::new(Vec::new());
 
@@ -415,6 +425,17 @@ pub mod sched {
                 } else {
                     std::thread::yield_now();
                 }
+            }
+        }
+        let smask = STALL_MASK.load(Ordering::Relaxed);
+        if smask != 0 {
+            let mut x = YIELD_STATE.load(Ordering::Relaxed);
+            x ^= x << 13;
+            x ^= x >> 7;
+            x ^= x << 17;
+            YIELD_STATE.store(x, Ordering::Relaxed);
+            if (x >> 20) & smask == 0 {
+                std::thread::sleep(Duration::from_micros(STALL_MICROS.load(Ordering::Relaxed)));
             }
         }
         if !ON.load(Ordering::Relaxed) {
